@@ -224,6 +224,13 @@ impl CharProperty {
                     let msg = format!("Undefined category: {}", target.as_ref());
                     VibratoError::invalid_format("char.def", msg)
                 })?;
+            if usize::from_u32(cinfo.base_id()) >= CATE_IDSET_BITS {
+                let msg = format!(
+                    "Only the first {CATE_IDSET_BITS} categories can be assigned to characters: {}",
+                    target.as_ref()
+                );
+                return Err(VibratoError::invalid_format("char.def", msg));
+            }
             cate_idset |= 1 << cinfo.base_id();
         }
         base_cinfo.reset_cate_idset(cate_idset);
